@@ -99,6 +99,15 @@ type AssertHook struct {
 	Clause  Clause
 }
 
+type ClosesOnly struct {
+	PkgPath string
+	Type    string
+	Field   string
+	Props   []string
+	File    string
+	Line    int
+}
+
 type Pred struct {
 	Name   string
 	Params []string
@@ -132,6 +141,7 @@ type ContractSet struct {
 	Ghosts  map[string]*GhostVar
 	Lemmas  []*Lemma
 	GlobalInvs map[string][]Clause // per package path: invariants over package-level variables, proved of init()
+	ClosesOnly []ClosesOnly        // channel-typed fields on which nothing is ever sent (checked): a completed receive means closed
 	Files   []string
 	Scan    map[string]int // counts of assume/trusted/etc tokens
 }
@@ -205,7 +215,7 @@ func readContractLines(path string) ([]rawLine, string, error) {
 	return out, pkg, nil
 }
 
-var topKeywords = map[string]bool{"pred": true, "ghost": true, "fnspec": true, "func": true, "lemma": true, "globalinv": true}
+var topKeywords = map[string]bool{"pred": true, "ghost": true, "fnspec": true, "func": true, "lemma": true, "globalinv": true, "closesonly": true}
 var clauseKeywords = map[string]bool{
 	"props": true, "requires": true, "ensures": true, "onpanic": true, "modifies": true, "nopanic": true,
 	"maypanic": true, "recovers": true, "loop": true, "dyncall": true, "ghost": true, "assert": true,
@@ -266,6 +276,13 @@ func (cs *ContractSet) LoadContractFile(path, pkgPath string) error {
 			if err := cs.parsePred(rest, pkgPath, path, it.head.line); err != nil {
 				return err
 			}
+		case "closesonly":
+			_, props, txt := stripTags(rest)
+			parts := strings.SplitN(strings.TrimSpace(txt), ".", 2)
+			if len(parts) != 2 {
+				return fmt.Errorf("%s:%d: closesonly Type.field", path, it.head.line)
+			}
+			cs.ClosesOnly = append(cs.ClosesOnly, ClosesOnly{PkgPath: pkgPath, Type: parts[0], Field: parts[1], Props: props, File: path, Line: it.head.line})
 		case "globalinv":
 			label, props, txt := stripTags(rest)
 			e, err := parseSpecExpr(txt)
@@ -636,6 +653,15 @@ func (cs *ContractSet) parseClause(fc *FuncContract, c rawLine, path string) err
 
 func parseGhostStmt(st string, line int) (GhostStmt, error) {
 	gs := GhostStmt{Text: st, Line: line}
+	if strings.HasPrefix(st, "assume ") {
+		_, _, t := stripTags(st[len("assume "):])
+		e, err := parseSpecExpr(t)
+		if err != nil {
+			return gs, err
+		}
+		gs.Kind, gs.Value, gs.Text = "assume", e, t
+		return gs, nil
+	}
 	if strings.HasPrefix(st, "assert ") {
 		label, props, t := stripTags(st[len("assert "):])
 		e, err := parseSpecExpr(t)
